@@ -223,6 +223,15 @@ def large_case(n_values):
     meta.update({'master_table_version': 33, 'n_subsets': 1, 'is_compressed': False})
     lead = 1 - n_values % 2
     n = (n_values - 1 - lead) // 2
+    if n > 65534:
+        # the 16-bit factor holds 65534 at most: a second replication takes the rest
+        m = (n_values - 2 - 2 * 65000) // 2
+        lead = (n_values - 2 - 2 * 65000) - 2 * m
+        case = gmsg.case_from_raws(meta, [1001] * lead + [102000, 31002, 1001, 1002, 102000, 31002, 1001, 1002],
+                                   subsets=[[3] * lead + [65000] + [1, 2] * 65000 + [m] + [1, 2] * m])
+        case.n_values = n_values
+        assert len(case.values()[0]) == n_values
+        return case
     case = gmsg.case_from_raws(meta, [1001] * lead + [102000, 31002, 1001, 1002], subsets=[[3] * lead + [n] + [1, 2] * n])
     case.n_values = n_values
     assert len(case.values()[0]) == n_values
